@@ -398,6 +398,16 @@ def write_dataset_to_text(dataset: DataSet, fh: TextIO) -> None:
     ndim = len(dataset.data.shape)
     ncol = dataset.data.shape[-1]
 
+    # All values are written (and read back) as 64-bit floating point numbers.
+    # Refuse integers which would silently be rounded.
+    for values in [dataset.data] + [scale for scale in dataset.axis_scale if scale is not None]:
+        values = np.asarray(values)
+        if values.dtype.kind in "iu":
+            large_values = values[(values > 2**53) | (values < -2**53)]
+            if any(int(float(v)) != int(v) for v in large_values.flat):
+                raise ValueError("Integer values that are not exactly representable as floating point"
+                                 " can not be stored in text format")
+
     # Create special columns if needed.
     special_column_label = []
     special_column_unit = []
